@@ -81,7 +81,7 @@ def provenance(check: Check, repo) -> None:
 
 def run(tier: str) -> Check:
     check = Check("C13", tier, EXPLANATION)
-    check.rules = ["FURTHEST", "FAIL-SITE", "FAILLABEL", "FAILPOS", "FRAMES", "NEG", "SUPPRESS", "FAIL-PARITY", "ESCAPE-RENDER", "LINE-OFFSET"]
+    check.rules = ["FURTHEST", "FAIL-SITE", "FAILLABEL", "FAILPOS", "FRAMES", "NEG", "SUPPRESS", "FAIL-PARITY", "ESCAPE-RENDER", "LINE-OFFSET", "CASE"]
     check.assumptions = [
         "that the line/column/source line shown are those of p: only the partition premise (LINE-OFFSET) of error_context is decided, not its arithmetic",
         "start_pos <= p relies on C16's position-write discipline and on callers passing 0 <= start_pos <= len(text)",
@@ -91,6 +91,9 @@ def run(tier: str) -> Check:
     for r in RENDER:
         t, _ = run_entry(check, repo, r, set(), "ESCAPE-RENDER")
         check.count("escaping_sites_examined", t)
+    from .c12 import ci_string_facts
+
+    ci_string_facts(check, repo)  # premise of p <= len(input): the interpreter advances by len(value) for ^"..." literals
     from ..lineoff import apply as line_offsets
 
     line_offsets(check, repo, "LINE-OFFSET", ["src/pest/exceptions.py"], 1)
